@@ -1,5 +1,6 @@
 import GlareModel.Core.Util
 import GlareModel.Core.SortKey
+import GlareModel.Core.Arith
 
 /-! `gmodel`: line-protocol driver. Reads `case <n> <component> ...` lines on stdin and
 prints `out <n> ...` lines computed by the code-shaped model. -/
@@ -50,11 +51,79 @@ def runSortKey (cells : List String) : String × String :=
      " ".intercalate (cvs.map fun (c, v) => SortKey.specKeyStr c.ty v))
   | none => ("bad-case", "bad-case")
 
+open Arith in
+def parseNumTy (s : String) : Option NumTy :=
+  let intTy (bits : Nat) (sg : Bool) : Option NumTy := some (.int ⟨bits, sg⟩)
+  match s with
+  | "Int8" => intTy 8 true | "Int16" => intTy 16 true | "Int32" => intTy 32 true
+  | "Int64" => intTy 64 true | "Int128" => intTy 128 true
+  | "UInt8" => intTy 8 false | "UInt16" => intTy 16 false | "UInt32" => intTy 32 false
+  | "UInt64" => intTy 64 false | "UInt128" => intTy 128 false
+  | _ =>
+    -- Decimal64(p,s) / Decimal128(p,s)
+    let bits := if s.startsWith "Decimal64(" then some 64 else if s.startsWith "Decimal128(" then some 128 else none
+    match bits, s.splitOn "(" with
+    | some b, [_, rest] =>
+      match (rest.dropEnd 1).toString.splitOn "," with
+      | [p, sc] => do
+        let p ← p.toNat?
+        let sc ← sc.toInt?
+        pure (.dec ⟨b, p, sc⟩)
+      | _ => none
+    | _, _ => none
+
+open Arith in
+def showNumTy : NumTy → String
+  | .int t => (if t.signed then "Int" else "UInt") ++ toString t.bits
+  | .dec d => s!"Decimal{d.bits}({d.prec},{d.scale})"
+
+open Arith in
+def showOut : Out → String
+  | .ok ty v => s!"ok {showNumTy ty} {v}"
+  | .err => "err"
+  | .trap .overflow => "trap overflow"
+  | .trap .divZero => "trap divzero"
+  | .unsupported => "unsupported"
+
+def runArith (args : List String) : String :=
+  match args with
+  | [op, tl, a, tr, b] =>
+    match parseNumTy tl, a.toInt?, parseNumTy tr, b.toInt? with
+    | some tl, some a, some tr, some b => showOut (Arith.binop op tl a tr b)
+    | _, _, _, _ => "bad-case"
+  | ["neg", t, a] =>
+    match parseNumTy t, a.toInt? with
+    | some (.int ty), some a => showOut (Arith.nativeOut (.int ty) (Arith.natNeg ty a))
+    | _, _ => "bad-case"
+  | _ => "bad-case"
+
+/-- `case N sum <bits> p1v1,p1v2|p2v1,...` : per-partition update, then merge left to right. -/
+def runSum (args : List String) : String :=
+  match args with
+  | [bits, parts] =>
+    match bits.toNat? with
+    | none => "bad-case"
+    | some b =>
+      let t : Arith.IntTy := ⟨b, true⟩
+      let plists := (parts.splitOn "|").map fun p => (p.splitOn ",").filterMap String.toInt?
+      let states := plists.map (Arith.sumFold t Arith.sumInit)
+      let merged := states.foldl (fun acc s => match acc, s with
+        | some a, some s => Arith.sumMerge t a s
+        | _, _ => none) (some Arith.sumInit)
+      match merged with
+      | none => "err"
+      | some s => match Arith.sumFinalize s with
+        | some v => s!"ok {v}"
+        | none => "null"
+  | _ => "bad-case"
+
 def step (line : String) : Option String :=
   match splitWords line with
   | "case" :: n :: "sortkey" :: cells =>
     let (o, sp) := runSortKey cells
     some s!"out {n} {o}\nspec {n} {sp}"
+  | "case" :: n :: "arith" :: args => some s!"out {n} {runArith args}"
+  | "case" :: n :: "sum" :: args => some s!"out {n} {runSum args}"
   | "case" :: n :: _ => some s!"out {n} bad-component"
   | _ => none
 
